@@ -360,7 +360,14 @@ pub fn run(a: &Args, m: &mut Mon) {
         let nf = match r.below(10) {
             0 => 1,
             1..=7 => r.usize(2, 8),
-            _ => r.usize(9, 100),
+            _ => {
+                if k % 64 == 9 {
+                    m.count("very_long_functions");
+                    r.usize(500, 3000)
+                } else {
+                    r.usize(9, 100)
+                }
+            }
         };
         let (f, _c) = gen_ends_any(&mut r, nf);
         let (g, class) = gen_second(&mut r, &f);
